@@ -463,7 +463,20 @@ def build_test(case, callbacks=None):
   if case.get('plugs') is not None:
     env['plugs'] = PlugsSupport(ctx, env, case['plugs'])
   nodes = [build_node(n, ctx, env) for n in case['nodes']]
-  test = htf.Test(*nodes)
+  # the station setting capture_source (read when the Test is built: the whole tree goes through load_code_info) is on
+  # for one case in five
+  from openhtf.util import configuration as _cfg
+  capsrc = case.get('capsrc', zlib.crc32(json.dumps(case.get('nodes'), sort_keys=True, default=str).encode()) % 5 == 0)
+  _had = 'capture_source' in _cfg.CONF._loaded_values
+  _old = _cfg.CONF._loaded_values.get('capture_source')
+  _cfg.CONF.load(capture_source=bool(capsrc), _override=True)
+  try:
+    test = htf.Test(*nodes)
+  finally:
+    if _had:
+      _cfg.CONF._loaded_values['capture_source'] = _old
+    else:
+      _cfg.CONF._loaded_values.pop('capture_source', None)
   recs = []
   cb_records = []
   test.add_output_callbacks(recs.append)
@@ -843,7 +856,20 @@ def run_history(case):
   env2 = dict(env)
   env2['plugs'] = Overlap()
   nodes = [build_node(n, ctx, env2) for n in case['nodes']]
-  test = htf.Test(*nodes)
+  # the station setting capture_source (read when the Test is built: the whole tree goes through load_code_info) is on
+  # for one case in five
+  from openhtf.util import configuration as _cfg
+  capsrc = case.get('capsrc', zlib.crc32(json.dumps(case.get('nodes'), sort_keys=True, default=str).encode()) % 5 == 0)
+  _had = 'capture_source' in _cfg.CONF._loaded_values
+  _old = _cfg.CONF._loaded_values.get('capture_source')
+  _cfg.CONF.load(capture_source=bool(capsrc), _override=True)
+  try:
+    test = htf.Test(*nodes)
+  finally:
+    if _had:
+      _cfg.CONF._loaded_values['capture_source'] = _old
+    else:
+      _cfg.CONF._loaded_values.pop('capture_source', None)
   holder['test'] = test
   recs, cb_recs, running_none = [], [], []
   test.add_output_callbacks(recs.append)
